@@ -284,7 +284,7 @@ def check(args):
     nshards = max(4, nshards - nshards % 4)
     overrides = {"runs": args.runs, "budget": args.budget, "digests": args.digests,
                  "hashseed": args.hashseed}
-    known = {k["class"]: k for k in core.known_for(prop)}
+    known_entries = core.known_for(prop)
     all_errors, per_engine, unlisted, observed_known = [], {}, [], {}
     for en in engines:
         results, errors, max_runs = run_engine(prop, en, tier, seed, nshards, overrides)
@@ -293,8 +293,9 @@ def check(args):
         agg["max_runs"] = max_runs
         per_engine[en] = agg
         for cls, v in sorted(agg["violations"].items()):
-            if cls in known:
-                observed_known[cls] = observed_known.get(cls, 0) + v["count"]
+            k = core.match_known(cls, known_entries)
+            if k is not None:
+                observed_known[k["id"]] = observed_known.get(k["id"], 0) + v["count"]
             else:
                 unlisted.append((en, v))
     if args.digests:
@@ -322,9 +323,9 @@ def check(args):
         if len(unlisted) > args.max_report:
             print(f"... and {len(unlisted) - args.max_report} more unlisted violation classes (use --survey)")
             rc = 1
-    for cls, k in sorted(known.items()):
-        n = observed_known.get(cls, 0)
-        print(f"KNOWN-FINDING: property={prop} class={cls} {k['what_fails']} "
+    for k in known_entries:
+        n = observed_known.get(k["id"], 0)
+        print(f"KNOWN-FINDING: property={prop} id={k['id']} {k['what_fails']} "
               f"({'observed %d times in this run' % n if n else 'not reached in this run'})")
 
     write_evidence(prop, tier, seed, per_engine, time.time() - t0, len(unlisted), sorted(observed_known),
